@@ -7,6 +7,10 @@ predicate (real code): shape (paths, steps), first column == requested / documen
 state, finiteness, positivity of exponential-type prices, non-negative variances, volatility ==
 sqrt(max(variance, 0)), requested dtype; instruments: all buffers one shape, re-simulation with a
 different path count / horizon replaces every buffer.
+correspondence with the system model (Model/InstrSys.lean, op "instr_sys", theorems Lemmas/C11Buffers.lean): every instrument session
+(repeated simulate() with changing n_paths / horizon on every primary class and dtype, user register_buffer calls in between that
+overwrite a simulated buffer with another shape) is replayed in the model; after every call the buffers' names, dtypes, shapes, the
+identity of the tensor objects against the model's generation numbers and the model's record of the last simulate are compared.
 """
 import math
 from common import *  # noqa
@@ -139,6 +143,49 @@ def check(ctx):
             elif bool(o.isnan().any()) or bool((o < 0).any()):
                 ctx.fail("an exponential-type price process is NaN / negative in an extreme float32 regime (inf * 0 ?)", case,
                          key=f"gen:{gname}:spot:nonfinite", detail={"nan": int(o.isnan().sum()), "negative": int((o < 0).sum())})
+    # ---------------- the smallest grids of the property's quantifier: ONE time step (n_steps = 1; an instrument simulated over a zero
+    # horizon) and one path - every generator and every primary instrument has to return the initial state in shape (n_paths, 1)
+    import pfhedge.instruments as I_
+    one_step = [
+        ("brownian", lambda N, dt_: S.generate_brownian(N, 1, init_state=(0.25,), dtype=dt_), 0.25),
+        ("geometric_brownian", lambda N, dt_: S.generate_geometric_brownian(N, 1, init_state=(2.0,), dtype=dt_), 2.0),
+        ("merton_jump", lambda N, dt_: S.generate_merton_jump(N, 1, init_state=(2.0,), dtype=dt_), 2.0),
+        ("kou_jump", lambda N, dt_: S.generate_kou_jump(N, 1, init_state=(2.0,), dtype=dt_), 2.0),
+        ("cir", lambda N, dt_: S.generate_cir(N, 1, init_state=(0.05,), dtype=dt_), 0.05),
+        ("vasicek", lambda N, dt_: S.generate_vasicek(N, 1, init_state=(0.05,), dtype=dt_), 0.05),
+        ("heston", lambda N, dt_: S.generate_heston(N, 1, init_state=(2.0, 0.09), dtype=dt_).spot, 2.0),
+        ("local_volatility", lambda N, dt_: S.generate_local_volatility_process(N, 1, lambda t, s: 0.2 + 0.0 * s, init_state=(2.0,), dtype=dt_).spot, 2.0),
+        ("rough_bergomi", lambda N, dt_: S.generate_rough_bergomi(N, 1, init_state=(2.0, 0.09), dtype=dt_).spot, 2.0),
+    ]
+    for gname, fn_, init in one_step:
+        for N in (1, 3):
+            for dt_ in (torch.float32, torch.float64):
+                torch.manual_seed(3000 + N)
+                case = {"corpus": "one time step", "generator": gname, "n_paths": N, "n_steps": 1, "dtype": str(dt_).replace("torch.", ""), "init": init}
+                ctx.case(case, True, tag="one_step")
+                st, o, _ = call_impl(fn_, N, dt_)
+                if st != "ok":
+                    ctx.fail("a generator raised for n_steps = 1 (the property quantifies over n_steps >= 1)", case, key=f"gen:{gname}:one-step:error", detail=o)
+                elif tuple(o.shape) != (N, 1) or o.dtype != dt_ or not bool((o == torch.tensor(init, dtype=dt_)).all()):
+                    ctx.fail("for n_steps = 1 a generator does not return the initial state in shape (n_paths, 1) and the requested dtype", case,
+                             key=f"gen:{gname}:one-step:value", detail={"shape": list(o.shape), "dtype": str(o.dtype), "values": [float(x) for x in o.flatten().tolist()][:4]})
+    one_step_inst = [("BrownianStock", lambda: I_.BrownianStock()), ("HestonStock", lambda: I_.HestonStock()), ("MertonJumpStock", lambda: I_.MertonJumpStock()),
+                     ("KouJumpStock", lambda: I_.KouJumpStock()), ("CIRRate", lambda: I_.CIRRate()), ("VasicekRate", lambda: I_.VasicekRate()),
+                     ("LocalVolatilityStock", lambda: I_.LocalVolatilityStock(lambda t, s: 0.2 + 0.0 * s)), ("RoughBergomiStock", lambda: I_.RoughBergomiStock())]
+    for iname, mk in one_step_inst:
+        for N in (1, 2):
+            torch.manual_seed(3100 + N)
+            case = {"corpus": "zero horizon", "instrument": iname, "n_paths": N, "time_horizon": 0.0}
+            ctx.case(case, True, tag="one_step")
+            inst = mk()
+            st, o, _ = call_impl(inst.simulate, n_paths=N, time_horizon=0.0)
+            if st != "ok":
+                ctx.fail("an instrument raised when simulated over a zero horizon (one time point)", case, key=f"instrument:{iname}:one-step:error", detail=o)
+                continue
+            bufs = dict(inst.named_buffers())
+            if not bufs or any(tuple(b.shape) != (N, 1) or not bool(b.isfinite().all()) for b in bufs.values()):
+                ctx.fail("after a zero-horizon simulation the buffers are not finite series of shape (n_paths, 1)", case, key=f"instrument:{iname}:one-step:value",
+                         detail={k: list(b.shape) for k, b in bufs.items()})
     # ---------------- instruments
     def build(name, dtype):
         kw = {"dtype": dtype}
@@ -150,9 +197,14 @@ def check(ctx):
             return I.CIRRate(sigma=g.choice([0.2, 2.0]), **kw)
         return getattr(I, name)(**kw)
     prims = ["BrownianStock", "HestonStock", "CIRRate", "VasicekRate", "MertonJumpStock", "KouJumpStock", "RoughBergomiStock", "LocalVolatilityStock"]
-    for it in range(40 if ctx.tier == "quick" else 600):
-        name = g.choice(prims)
-        dname = g.choice(["float32", "float64", None])
+    import c17 as SYS                       # the system model's harness side (scenario format, comparison)
+    SHORT = {"float32": "f32", "float64": "f64", None: None}
+    sessions = []                           # (scenario, real execution) per instrument session, for op "instr_sys"
+    # every class x every dtype once, then random picks
+    plan = [(n_, d_) for n_ in prims for d_ in ("float32", "float64", None)]
+    n_rand = 40 if ctx.tier == "quick" else 600
+    for it in range(len(plan) + n_rand):
+        name, dname = plan[it] if it < len(plan) else (g.choice(prims), g.choice(["float32", "float64", None]))
         dtype = None if dname is None else getattr(torch, dname)
         inst = build(name, dtype)
         case = {"instrument": name, "dtype": str(dname)}
@@ -160,7 +212,20 @@ def check(ctx):
         ctx.traces += 1
         ctx.stats[f"instrument={name}"] += 1
         hist = []
-        for rnd in range(g.choice([1, 2, 3])):
+        keep = []
+        scen = {"ambient": "f32", "prims": [[name, SHORT[dname]]], "derivs": [], "cmds": [], "forms": []}
+        sess_out = []
+        sess0 = SYS.isys_observe_single(torch, inst, keep)
+        sessions.append((scen, (sess0, sess_out)))
+        sim_names = SYS.ISYS_SIM[SYS.ISYS_KIND[name]]
+
+        def record(cmd):
+            o_, ob_ = SYS.isys_observe_single(torch, inst, keep)
+            scen["cmds"].append(cmd)
+            scen["forms"].append(None)
+            sess_out.append(("op", ("ok", None), o_, ob_))
+        n_rounds = 3 if it < len(plan) else g.choice([1, 2, 3])
+        for rnd in range(n_rounds):
             npaths, hor = g.choice([1, 2, 5]), g.choice([2, 5, 11]) / 250
             init = None
             if g.chance(0.5):
@@ -182,6 +247,7 @@ def check(ctx):
                 ctx.fail("simulate() raised", c2, key=key, detail=v)
                 break
             T = math.ceil(hor / inst.dt - 1e-8) + 1
+            record(["prim_sim", 0, npaths, T])
             bufs = dict(inst.named_buffers())
             want = torch.get_default_dtype() if dtype is None else dtype
             for bn, b in bufs.items():
@@ -210,6 +276,25 @@ def check(ctx):
                     ctx.fail("volatility is not the square root of variance", c2, key=f"instrument:{name}:volatility")
             if name not in ("CIRRate", "VasicekRate") and not bool((inst.spot > 0).all()):
                 ctx.fail("a price process is not positive", c2, key=f"instrument:{name}:positivity")
+            if g.chance(0.4):
+                last = rnd == n_rounds - 1
+                bname = g.choice(sim_names + (["extra"] if last else []))
+                bshape = [g.choice([1, 2, 3, 4]), g.choice([1, 3, 7])]
+                bdt = g.choice(["f32", "f64"])
+                inst.register_buffer(bname, torch.ones(*bshape, dtype=getattr(torch, SYS.DT[bdt])))
+                ctx.stats["instrument:user_register_buffer"] += 1
+                record(["prim_reg", 0, bname, bdt, bshape])
+    # the sessions against the system model: shapes, replacement (generation numbers vs tensor identity), record of the last simulate
+    try:
+        souts = ctx.driver([SYS.isys_request(sc) for sc, _ in sessions])
+    except DriverBroken as e:
+        ctx.ties_broken.append({"kind": "driver", "detail": str(e)[:1500]})
+        souts = []
+    for (sc, real), mo in zip(sessions, souts):
+        if "bad" in mo:
+            ctx.ties_broken.append({"kind": "driver", "detail": "instr_sys: " + str(mo)[:500]})
+            break
+        ctx.stats["instr_sys:compared_calls"] += SYS.isys_compare(ctx, sc, real, mo)
     # ---------------- random-number engines (supplied "normals"): antithetic and Sobol/Box-Muller, and generators driven by them
     from pfhedge.stochastic import randn_antithetic, randn_sobol_boxmuller
     from pfhedge.stochastic.engine import RandnSobolBoxMuller
